@@ -212,7 +212,46 @@ where
         | .invalidDependencies t => s!"invaliddeps {t}"
       (s', evLines evs ++ [s!"out resp submit {r}", s!"out core {showTids (sortTids core)}"] ++ snapshot s' true)
 
-def driver : Driver State := { reset := fun _ => {}, step := step }
+/-- driver state: the model state + what live listeners need: every job reported completed so far, and per waiting
+client (`hq submit --wait`: a listener for the job's events registered when the submit is processed) the jobs reported
+completed since its registration -/
+structure DState where
+  s : State := {}
+  completed : List Nat := []
+  /-- (job the client waits for, jobs reported completed since the registration) -/
+  waits : List (Nat × List Nat) := []
+
+def completedIn (lines : List String) : List Nat :=
+  lines.filterMap fun l => if l.startsWith "out ev jobCompleted " then (l.drop 20).toString.toNat? else none
+
+def submittedJob (lines : List String) : Option Nat :=
+  lines.findSome? fun l => if l.startsWith "out resp submit ok " then (l.drop 19).toString.toNat? else none
+
+def stepD (d : DState) (toks : List String) : DState × List String :=
+  match toks with
+  | "submitw" :: rest =>
+    -- a submit whose connection then streams the job's live events; the response line is not compared (it is
+    -- delivered after the journal flush)
+    let (s', lines) := step d.s ("submit" :: rest)
+    let done := completedIn lines
+    let waits := d.waits.map fun w => (w.1, w.2 ++ done)
+    let waits := match submittedJob lines with
+      | some j => waits ++ [(j, done.filter (· == j))]
+      | none => waits
+    ({ s := s', completed := d.completed ++ done, waits := waits },
+     lines.filter fun l => !l.startsWith "out resp submit ")
+  | ["waitreport", j] =>
+    match j.toNat? with
+    | none => (d, ["out !bad-op"])
+    | some j =>
+      let got := d.waits.any fun w => w.1 == j && w.2.contains j
+      (d, [s!"out wait {j} completed={if d.completed.contains j then 1 else 0} got={if got then 1 else 0}"])
+  | _ =>
+    let (s', lines) := step d.s toks
+    let done := completedIn lines
+    ({ s := s', completed := d.completed ++ done, waits := d.waits.map fun w => (w.1, w.2 ++ done) }, lines)
+
+def driver : Driver DState := { reset := fun _ => {}, step := stepD }
 
 end JobDriver
 
